@@ -379,6 +379,9 @@ type c02Scenario struct {
 	// = a C02Rich whose I holds a *int and whose IP points to an interface
 	// holding a *int.
 	Preset string `json:"preset,omitempty"`
+	// NoScopeGuard (literal witnesses only): report a divergence even when it
+	// already shows on a fresh zero target.
+	NoScopeGuard bool `json:"no_scope_guard,omitempty"`
 }
 
 var c02EntryNames = []string{"Unmarshal", "Parse(b,x,0)", "Decoder.Decode", "Decoder.Decode+UseNumber", "Decoder.Decode+DisallowUnknownFields", "Decoder.Decode+UseNumber+DisallowUnknownFields"}
@@ -570,7 +573,7 @@ func runC02(r *core.Run) {
 				r.ScenarioOut = sc
 				return
 			}
-			if (e1 == nil) != (e2 == nil) || (e1 == nil && !reflect.DeepEqual(f1.Interface(), f2.Interface())) {
+			if !sc.NoScopeGuard && ((e1 == nil) != (e2 == nil) || (e1 == nil && !reflect.DeepEqual(f1.Interface(), f2.Interface()))) {
 				r.Probe("input-dimension-divergence-on-fresh-target(skipped, not claimed)")
 				continue
 			}
